@@ -84,7 +84,6 @@ PROBES = [
     ("softkw-head-attribute-colon", "m", "match.x: int = 1\n"),
     ("softkw-head-nested-lambda-colon", "m", "match = lambda a=lambda: 1: 2\n"),
     ("softkw-head-other-colon", "m", "case = 1; x: int = 2\n"),
-    ("float-dot-else", "m", "x = 0 if 1.else 2\n"),
     ("identifier-not-nfkc", "m", "ﬁ = 1\n"),
     ("annassign-parenthesised-name-simple", "m", "(x): int = 1\n"),
     ("subscript-single-starred-not-tuple", "m", "x[*a]\n"),
@@ -147,11 +146,6 @@ def classify_reject(src, out):
         pre = b[:off].decode("utf-8", "replace")
         if b[off:off + 1] == b"*" and re.search(r"\bas[ \t]*$", pre) and re.search(r"(^|\n|\r|:|;)[ \t]*(async[ \t]+)?with\b[^\n\r]*$", pre):
             return "with-item-starred-target"
-    if kind == "Lexical.OtherError":
-        pre = b[:off].decode("utf-8", "replace")
-        post = b[off:].decode("utf-8", "replace")
-        if re.search(r"[0-9]\.[eE]$", pre) and post.startswith("lse"):
-            return "float-dot-else"
     if kind in ("Lexical.FStringError", "Lexical.Eof", "Lexical.StringError"):
         # a triple-quoted string literal inside a replacement field of an f-string, on the line of the error
         # or (triple-quoted f-string) anywhere after its opening
@@ -574,7 +568,7 @@ def streams(ctx):
               "match: int\n", "match: dict[str, int] = {}\n", "match -x:\n case 1: pass\n", "match *a, b:\n case 1: pass\n",
               "type X = int\n", "type X[T: int, *Ts, **P] = dict[T, P]\n", "def f[T](a: T) -> T: pass\n",
               "class C[T](B, metaclass=M): pass\n", "type type = type\n", "type match[case] = case\n",
-              "f(x for x in y)\n", "x = 1.\n", "x = 1.e3\n", "x = 1 .real\n", "a = b = *c, d\n", "x = '\\ud800'\n",
+              "f(x for x in y)\n", "x = 1.\n", "x = 1.e3\n", "x = 0 if 1.else 2\n", "x = [1.if a else 2]\n",   # be24063 "x = 1 .real\n", "a = b = *c, d\n", "x = '\\ud800'\n",
               "def f(a, /, b=1, *c, d, e=2, **f): pass\n", "lambda *, a=1: 0\n", "with (a as b, c): pass\n", "with (a, b): pass\n",
               "with (a): pass\n", "try: pass\nexcept* E: pass\n", "x = yield\n", "async def f():\n await x\n", "if a:=1: pass\n",
               "[x for x in y if z if w for a in b]\n", "print >> f, x\n", "x = 0xFF + 0o7 + 0b1 + 1_0\n", "@a.b(c)\n@d\nclass E: pass\n",
